@@ -90,3 +90,17 @@ Proof.
   apply Nat.eqb_eq in H1. apply Nat.eqb_eq in H3. subst. split; [reflexivity|]. split; [reflexivity|].
   destruct (p_consumed ps) as [k|]; [|left; reflexivity]. apply Nat.eqb_eq in H2. subst. right. reflexivity.
 Qed.
+
+(* every way of reading: the table of each call path agrees with the C++ layouts, and names the same fixed attributes
+   byte for byte as the reference table *)
+Lemma paths_agree_sound : forall T E cpp ref paths,
+  paths_agree T E cpp ref paths = true ->
+  forall path tbl, In (path, tbl) paths ->
+    layouts_agree_spec T E cpp tbl /\
+    List.length ref = List.length tbl /\
+    forall p q, In (p, q) (combine ref tbl) -> same_fixed p q = true.
+Proof.
+  intros T E cpp ref paths H path tbl Hin. unfold paths_agree in H. rewrite forallb_forall in H.
+  specialize (H _ Hin). cbn [snd] in H. apply andb_prop in H. destruct H as [H1 H2].
+  split; [apply forallb2_struct_agree_sound; exact H1|]. exact (forallb2_combine _ _ _ _ _ H2).
+Qed.
